@@ -78,7 +78,9 @@ fn c15_vault() {
     // up to two versions; each: owner = requested / foreign, signature valid / invalid
     let ca = Counter(SymU::fresh("counter_a"));
     let cb = Counter(SymU::fresh("counter_b"));
-    assume(ca.0.slt(cb.0).0); // naming only: b is the higher counter
+    // the two counters are unrelated: a may be lower, equal or higher
+    let b_higher = ca.0.slt(cb.0).get();
+    let equal = ca.0.seq(cb.0).get();
     let mk = |tag: &[u8], c: Counter, foreign: bool, valid: bool| {
         let o = if foreign { sk(2) } else { sk(1) };
         let signer = if valid { Some(o.clone()) } else { Some(sk(5)) };
@@ -118,7 +120,13 @@ fn c15_vault() {
                 check_bool("vault:returned_pad_is_owned_and_validly_signed", true);
                 // highest valid counter among those received
                 let is_b = pad_access::payload_of(&pad) == b"version-b".to_vec();
-                if b_ok {
+                if a_ok && b_ok {
+                    if equal {
+                        cover("equal_counters");
+                    } else {
+                        check_bool("vault:highest_valid_counter_is_returned", is_b == b_higher);
+                    }
+                } else if b_ok {
                     check_bool("vault:highest_valid_counter_is_returned", is_b);
                 } else {
                     check_bool("vault:highest_valid_counter_is_returned", !is_b);
